@@ -231,6 +231,9 @@ struct Exec {
 	int next_ptr_id = 1;
 	// per-op callback behaviour
 	uint64_t cb_fail_at = 0;
+	std::string cb_act;      // what the cb_act_at-th callback invocation does besides answering: "free_other" | "nested_parse"
+	uint64_t cb_act_at = 0;
+	int cb_act_ctx = 0;      // the other context of the same client it acts on / borrows the schema of
 	int cb_verdict = 1;
 	int cb_errno = -1000;   // errno value a callback leaves behind (F-errno via callback party)
 	bool cb_report = false; // a refusing callback calls cfg_error() on the context it was given
@@ -248,6 +251,8 @@ static Exec *E = nullptr;
 
 // ------------------------------------------------------------------ callbacks (S5)
 
+static void do_cb_action(); // defined after the schema builder
+
 static bool cb_tick(const std::string &entry, int *verdict, cfg_t *cfg = nullptr)
 {
 	E->cur->cb_count++;
@@ -262,6 +267,8 @@ static bool cb_tick(const std::string &entry, int *verdict, cfg_t *cfg = nullptr
 	if (fail)
 		E->res.faults_fired_cb++;
 	E->cur->cbs.push_back(entry + "->" + std::to_string(*verdict));
+	if (!E->cb_act.empty() && E->cur->cb_count == E->cb_act_at)
+		do_cb_action();
 	if (fail && E->cb_report && cfg)
 		cfg_error(cfg, "refused by callback"); // a refusing callback reports the error itself, as the API documentation asks
 	if (E->cb_errno != -1000)
@@ -732,6 +739,51 @@ static cfg_t *do_init(int client, int schema, int flags, const json &op)
 	return cfg;
 }
 
+// Re-entry from a callback (a party of its own: the application code inside the callback): while a parse of one
+// context is under way the callback releases ANOTHER context, or creates, fills and releases a temporary one.
+static void do_cb_action()
+{
+	OpResult &r = *E->cur;
+	if (r.op != "parse")
+		return;
+	int key = r.client * 1000 + E->cb_act_ctx;
+	if (E->cb_act == "free_other") {
+		auto it = E->ctxs.find(key);
+		if (it == E->ctxs.end() || !it->second.cfg || E->cb_act_ctx == r.ctx)
+			return;
+		cfg_free(it->second.cfg);
+		it->second.cfg = nullptr;
+		r.cbs.push_back("act free_other");
+	} else if (E->cb_act == "parse_other") {
+		auto it = E->ctxs.find(key);
+		if (it == E->ctxs.end() || !it->second.cfg || E->cb_act_ctx == r.ctx)
+			return;
+		size_t nd = r.diags.size();
+		int rc = cfg_parse_buf(it->second.cfg, "a = 3\n");
+		r.diags.resize(nd);
+		r.cbs.push_back("act parse_other ret=" + std::to_string(rc));
+	} else if (E->cb_act == "nested_parse") {
+		const json &plan = *E->plan;
+		int schema = 0;
+		auto self = E->ctxs.find(r.client * 1000 + r.ctx);
+		if (self != E->ctxs.end())
+			schema = self->second.schema;
+		Built *b = new Built();
+		E->builts.push_back(b);
+		b->root = build_opts(plan["schemas"][schema]["opts"], *b);
+		cfg_t *t = cfg_init(b->root, 0);
+		release_built(b, plan.contains("knobs") ? plan["knobs"].value("poison", true) : true);
+		if (!t)
+			return;
+		cfg_set_error_function(t, sim_errfunc);
+		size_t nd = r.diags.size();
+		int rc = cfg_parse_buf(t, "a = 3\n");
+		r.diags.resize(nd); // the temporary context's diagnostics are its own
+		cfg_free(t);
+		r.cbs.push_back("act nested_parse ret=" + std::to_string(rc));
+	}
+}
+
 static void apply_world(const json &plan)
 {
 	if (!plan.contains("world"))
@@ -823,6 +875,9 @@ static void run_op(int client, const json &op, OpResult &r)
 	W.op_alloc_budget = E->default_alloc_budget;
 	W.fail_at = op.value("falloc", (uint64_t)0);
 	E->cb_fail_at = op.value("fcb", (uint64_t)0);
+	E->cb_act = op.value("cbact", std::string());
+	E->cb_act_at = op.value("cbact_at", (uint64_t)1);
+	E->cb_act_ctx = op.value("cbact_c", 0);
 	E->cb_verdict = op.value("fcbv", 1);
 	E->cb_errno = op.value("cberrno", -1000);
 	E->cb_report = op.value("cberr", 0) != 0;
